@@ -10,7 +10,7 @@ LOOP_STUBS = [
     "SendableChooser stub returns the default option; SmartDashboard 'Auto Selector' string absent",
 ]
 LOOP_ASSUME = [
-    "robot layouts are the enumerated programs R1 (2 components), R2 (3 components, inherited hooks), R3 (inherited robot class)",
+    "robot layouts are the enumerated programs R1 (2 components), R2 (3 components, inherited hooks), R3 (inherited robot class), R4 (a StateMachine component between plain ones)",
     "callbacks only log (and raise when the fault plan says so)",
     "single-threaded: endCompetition from another thread is a flag flip at a refresh point",
 ]
@@ -55,7 +55,7 @@ class C05(LoopSpec):
         if tier == "quick":
             return [mkjob("R1", 4, True, sym_body=["periodic"]), mkjob("R2", 4, True), mkjob("R3", 4, False),
                     mkjob("R2", 3, False, sym_shutdown=True), mkjob("R1", 3, True, period="sym"),
-                    mkjob("R3", 3, True, period=0.05, sym_body=["periodic"])]
+                    mkjob("R3", 3, True, period=0.05, sym_body=["periodic"]), mkjob("R4", 3, True)]
         return [mkjob("R1", 5, True, sym_body=["periodic"]), mkjob("R2", 6, True), mkjob("R3", 6, False),
                 mkjob("R2", 5, True, sym_shutdown=True), mkjob("R1", 4, True, raw_words=True),
                 mkjob("R3", 4, True, change_at_dispatch=True), mkjob("R1", 4, True, period="sym", sym_body=["periodic"]),
@@ -88,9 +88,13 @@ class C06(LoopSpec):
 
     def jobs(self, tier):
         if tier == "quick":
-            return [mkjob("R1", 4, True), mkjob("R2", 4, True, sym_shutdown=True), mkjob("R3", 4, False)]
+            return [mkjob("R1", 4, True), mkjob("R2", 4, True, sym_shutdown=True), mkjob("R3", 4, False), mkjob("R4", 4, True),
+                    mkjob("R2", 3, True, fms=True, faults=1, fault_patterns=["first", "always"],
+                          fault_sites=["c1.on_disable", "c1.on_enable", "c2.on_disable", "c2.on_enable"])]
         return [mkjob("R1", 6, True), mkjob("R2", 5, True, sym_shutdown=True), mkjob("R3", 6, False),
-                mkjob("R2", 4, True, raw_words=True), mkjob("R1", 4, True, change_at_dispatch=True)]
+                mkjob("R2", 4, True, raw_words=True), mkjob("R1", 4, True, change_at_dispatch=True), mkjob("R4", 5, True),
+                mkjob("R2", 4, True, fms=True, faults=2, fault_patterns=["first", "always"],
+                      fault_sites=["c1.on_disable", "c1.on_enable", "c2.on_disable", "c2.on_enable", "c1.execute"])]
 
     def reach_required(self, tier):
         return ["startup", "enter-teleop", "enter-auto", "enter-disabled", "enter-test", "execute-bracket",
@@ -99,7 +103,8 @@ class C06(LoopSpec):
     def path_fn(self, c, job):
         H = lcm.run_robot(c, job)
         c.prove("C06.run no-exception", H.outcome[0] == "normal", info=dict(outcome=str(H.outcome)))
-        lc.clauses_structure(c, H, "C06", timing=False, lifecycle=True, order=False)
+        if H.outcome[0] == "normal":
+            lc.clauses_structure(c, H, "C06", timing=False, lifecycle=True, order=False)
 
     def twin(self, tier):
         def tfn(c, job):
